@@ -251,6 +251,11 @@ func ApplyFuncIfNoError(ctx sdk.Context, f func(ctx sdk.Context) error) (err err
 		}
 	}()
 	cacheCtx, writeCache := ctx.CacheContext()
+	var verifSkip bool
+	if cacheCtx, verifSkip = verifEnterUnit(cacheCtx); verifSkip {
+		return errors.New("verif: unit skipped")
+	}
+	defer verifExitUnit()
 	err = f(cacheCtx)
 	if err == nil {
 		// write state to the underlying multi-store
